@@ -56,6 +56,42 @@ def lmnnObjective {k d n} (L : Mat K k d) (X : Mat K n d) (y : Fin n → Int) (t
       acc + vsum fun l => if y l = y i then 0 else smax 0 (1 + embSqDist L X i j - embSqDist L X i l)) 0
   reg * pull + (1 - reg) * push
 
+/-! ## The gradients handed to the optimiser (nca.py `_loss_grad_lbfgs`, mlkr.py `_loss`) -/
+
+/-- `W_sym = W + W.T; np.fill_diagonal(W_sym, -W.sum(axis=0))` -/
+def symFillDiag {n} (W : Mat K n n) : Mat K n n :=
+  fun i j => if i = j then -(vsum fun l => W l i) else W i j + W j i
+
+/-- `c * (X_embedded.T.dot(S)).dot(X)` with `X_embedded = X.dot(L.T)` -/
+def gradFromWeights {k d n} (c : K) (L : Mat K k d) (X : Mat K n d) (S : Mat K n n) : Mat K k d :=
+  fun a b => c * vsum fun j => (vsum fun i => transform L (X i) a * S i j) * X j b
+
+/-- NCA: `weighted_p_ij = masked_p_ij − p_ij · p` (`p` the row sums of the masked softmax) -/
+def ncaWeights {k d n} (L : Mat K k d) (X : Mat K n d) (y : Fin n → Int) : Mat K n n :=
+  let e : Mat K n n := fun i j => embSqDist L X i j
+  fun i j =>
+    let masked := if y i = y j then softmaxCode e i j else 0
+    let p := vsum fun l => if y i = y l then softmaxCode e i l else 0
+    masked - softmaxCode e i j * p
+
+/-- the gradient NCA hands to L-BFGS (before the sign flip): `2 · X_embeddedᵀ · W_sym · X` -/
+def ncaGradCode {k d n} (L : Mat K k d) (X : Mat K n d) (y : Fin n → Int) : Mat K k d :=
+  gradFromWeights (Scalar.ofNat 2) L X (symFillDiag (ncaWeights L X y))
+
+/-- MLKR: `W = softmax * ydiff[:, None] * (y − yhat[:, None])` -/
+def mlkrWeights {k d n} (L : Mat K k d) (X : Mat K n d) (y : Vec K n) : Mat K n n :=
+  let e : Mat K n n := fun i j => embSqDist L X i j
+  fun i j =>
+    let yhat := vsum fun l => softmaxCode e i l * y l
+    softmaxCode e i j * (yhat - y i) * (y j - yhat)
+
+/-- the gradient MLKR hands to L-BFGS: `4 · X_embeddedᵀ · W_sym · X` -/
+def mlkrGradCode {k d n} (L : Mat K k d) (X : Mat K n d) (y : Vec K n) : Mat K k d :=
+  gradFromWeights (Scalar.ofNat 4) L X (symFillDiag (mlkrWeights L X y))
+
+/-- the line `L + t·D` through `L` in direction `D` -/
+def lineAt {k d} (L D : Mat K k d) (t : K) : Mat K k d := fun a b => L a b + t * D a b
+
 /-! ## LMNN: the value `_loss_grad` computes (lmnn.py:246-281) -/
 
 /-- plain list sum -/
@@ -84,6 +120,16 @@ def lmnnCodeObjective {k d n} (L : Mat K k d) (X : Mat K n d) (targetPairs : Lis
   let dfMinus := sumOuterPairs X (act.map fun t => (t.1, t.2.2))
   let G : Mat K d d := fun a b => dfG a b * reg + (dfPlus a b - dfMinus a b) * (1 - reg)
   (Scalar.ofNat act.length * (1 - reg) + frob (matMul L G) L, act.length)
+
+/-- the gradient `_loss_grad` returns: `2 · L · G` with the same `G` -/
+def lmnnGradCode {k d n} (L : Mat K k d) (X : Mat K n d) (targetPairs : List (Fin n × Fin n))
+    (triples : List (Fin n × Fin n × Fin n)) (reg : K) : Mat K k d :=
+  let act := lmnnActive L X triples
+  let dfG := sumOuterPairs X targetPairs
+  let dfPlus := sumOuterPairs X (act.map fun t => (t.1, t.2.1))
+  let dfMinus := sumOuterPairs X (act.map fun t => (t.1, t.2.2))
+  let G : Mat K d d := fun a b => dfG a b * reg + (dfPlus a b - dfMinus a b) * (1 - reg)
+  fun a b => Scalar.ofNat 2 * matMul L G a b
 
 /-- the documented objective over the same candidate lists -/
 def lmnnDocObjectiveL {k d n} (L : Mat K k d) (X : Mat K n d) (targetPairs : List (Fin n × Fin n))
